@@ -42,6 +42,14 @@ func main() {
 			os.Exit(2)
 		}
 		debugAccessors(P)
+	case "loops":
+		P, err := Load("/repo", nil)
+		if err != nil {
+			fmt.Println(err)
+			os.Exit(2)
+		}
+		debugLoops(P)
+		debugIterDel(P)
 	case "check":
 		fs := flag.NewFlagSet("check", flag.ExitOnError)
 		prop := fs.String("property", "", "property id (or 'all')")
@@ -162,6 +170,7 @@ func main() {
 		}
 		c := &Ctx{P: P, Prop: v.Property, Tier: "quick", floors: map[string]int{}, ruleDesc: map[string]string{}}
 		def.Run(c)
+		c.traversalRule()
 		for _, o := range c.Obls {
 			if o.Rule == v.Obligation.Rule && o.Key == v.Obligation.Key && o.Status != Discharged {
 				fmt.Printf("still failing on the current tree: %s at %s: %s\n", o.Status, o.Site, o.Detail)
